@@ -82,7 +82,7 @@ func (m c04) Run(ctx *core.Ctx) {
 	if ctx.Tier == "thorough" {
 		L = 5
 	}
-	runStateWorkload(ctx, m.Exec, histKinds{setters: true, resolve: true}, tierN(ctx.Tier, 1_200_000, 30_000_000), tierN(ctx.Tier, 900_000, 20_000_000), L)
+	runStateWorkload(ctx, m.Exec, histKinds{setters: true, resolve: true, extra: true}, tierN(ctx.Tier, 1_200_000, 30_000_000), tierN(ctx.Tier, 900_000, 20_000_000), L)
 	// the composition clauses under sampled parser configurations
 	r := ctx.Rng
 	n := split(tierN(ctx.Tier, 400_000, 6_000_000), ctx.Shard, ctx.NShards)
@@ -95,7 +95,7 @@ func (m c04) Run(ctx *core.Ctx) {
 		if r.IntN(3) == 0 {
 			in = gen.Input(r)
 		}
-		cs := &core.Case{Check: "option-config", Input: core.S(in), Base: core.S(base), HasBase: has, Config: cfg, Ops: genHistory(r, 4, histKinds{setters: true, resolve: true})}
+		cs := &core.Case{Check: "option-config", Input: core.S(in), Base: core.S(base), HasBase: has, Config: cfg, Ops: genHistory(r, 4, histKinds{setters: true, resolve: true, extra: true})}
 		ctx.Begin(cs)
 		m.Exec(ctx, cs)
 	}
